@@ -234,9 +234,16 @@ func Run(bodies []func() any, prefix []int, stepTimeout time.Duration) (*Exec, e
 		r.threads[running].cond = nil
 		// (a goroutine the scheduler does not own - started by the code under test outside a controlled
 		// execution - may have stolen the thread's place at a scheduling point: then nobody receives here)
+		if !timer.Stop() {
+			select {
+			case <-timer.C:
+			default:
+			}
+		}
+		timer.Reset(stepTimeout)
 		select {
 		case r.threads[running].resume <- struct{}{}:
-		case <-time.After(stepTimeout):
+		case <-timer.C:
 			x.Hung = true
 			x.HungSite = lastSite + " (the chosen thread did not take the baton: a goroutine outside the scheduler's control reached a scheduling point?)"
 			Tainted = true
